@@ -80,8 +80,9 @@ CLAIMED.update({
               "bounds from small cores), invariance. Both ILPs (soc, toc) and k_alternative_deletion (soc) are compared with the reference "
               "for m<=5/6 and their certificates checked up to m=10/12.",
               "Deepening: the ILP constraint builders are mirrored and proved sound and complete (ILP optimum = reference optimum, decoding of axis "
-              "and deletion set); the constraint multiset python-mip receives is compared with the mirror. CBC (max_gap 0.05) and the dynamic "
-              "programme are not modelled; fewer than 20 alternatives as the property requires.", "C12"),
+              "and deletion set); the constraint multiset python-mip receives is compared with the mirror. the dynamic programme of k_alternative_deletion is mirrored and proved sound "
+              "(elp_sound: valid certificate, upper bound) and compared with the code at every size; its optimality and CBC (max_gap 0.05) are "
+              "not proved; fewer than 20 alternatives as the property requires.", "C12"),
     "C13": _r("Coq theorems: single-peaked-on-a-tree specification, connectivity test, tree and witness checkers proved equivalent to the "
               "spec (orientation/order of edges irrelevant), candidate-tree enumeration proved complete, decider correct for every size, "
               "invariance. is_single_peaked_on_tree compared with the decider (exhaustive m<=4, random m<=7/8), every returned edge list "
@@ -113,8 +114,9 @@ CLAIMED.update({
               "and every voter single-peaked on it', brute-force decider correct and complete for every size, heredity (exact negatives "
               "from small cores), invariance. is_single_peaked compared with the decider (exhaustive m<=4 incl. all 2-voter profiles with "
               "non-contiguous ids and common bottoms, random m<=7/8), every returned axis through the checker (m up to 43).",
-              "The Escoffier-Lang-Ozturk implementation is not mirrored. A wrong False on a large profile is seen on planted positives "
-              "and core-refuted negatives only.", "C03"),
+              "Deepening: is_single_peaked (Escoffier-Lang-Ozturk) is mirrored statement by statement and proved terminating, error-free, "
+              "sound and complete (elo_correct, elo_agrees_reference); the implementation's verdict is compared with the mirror at every "
+              "size (m up to 43).", "C03"),
     "C05": _r("Coq theorems: consecutive-ones checker and decider (any matrix), the eight approval-domain specifications with boolean "
               "witness checkers and deciders proved correct for every size, the mirrored reductions instance->matrix (CI, CEI via the "
               "prefix/suffix lemma, VI, VEI, WSC) and witness translations, dichotomous Euclidean <-> CI over Q in both directions with the "
@@ -142,8 +144,9 @@ CLAIMED.update({
               "bounds 1 <= min <= ceil(m/2), the brute-force contract (valid + minimum iff <= k, else None), invariance. "
               "k_alt_partition_approx through the checker up to m=25; k_alternative_partition_brut_force vs the reference for every k "
               "(exhaustive m<=5, fixed case set m=6..9).",
-              "Open known finding KF-C18-a (brute force not minimum from m=6 on: identified by input sha list; the m>=6 case set is "
-              "deterministic, independent of VERIF_SEED). The DFS and the dynamic programme are not mirrored.", "C18"),
+              "The DFS is not mirrored (compared with the proved reference for every k); the dynamic programme behind the approx function is "
+              "mirrored and proved sound (approx_valid). A non-minimality defect of the brute force found by this check was repaired "
+              "(175f7ec); no open finding.", "C18"),
     "C19": _r("Coq theorems: embedding checker over exact rationals equivalent to 'every voter ranks by strictly increasing distance', "
               "Euclidean => single-peaked and single-crossing (necessary conditions), and an exact decision procedure "
               "(Fourier-Motzkin feasibility proved sound and complete; eucl_decide_correct) for every size. is_one_euclidean compared "
@@ -164,6 +167,22 @@ CLAIMED.update({
               "re.findall, write-mutate-write histories on one object, unsorted categories.",
               "Text = code points; ASCII digits only; category keys are the integers the parser produces; a ballot with zero categories is "
               "outside the quantifier.", "C08"),
+})
+
+
+CLAIMED.update({
+    "C15": _m("Coq theorems (83, all sizes): for every injective relabelling f : N -> N and every permutation / regrouping of the ballot "
+              "list — verdict invariance of every reference decider and optimum (single-peaked strict/weak, single-crossing (two), tree, "
+              "the eight approval-domain deciders and C1P under row/column permutation, deletion optima, partition optimum, Euclidean "
+              "spec), invariance of the mirrored algorithms (ELO, is_single_crossing, Trick's algorithm under every set-iteration "
+              "order, ILP/PQ models), exact equivariance of the nine single-winner rules (winners(relabel f i) = map f (winners i)) and "
+              "of the pairwise/Copeland/Borda tables, has_condorcet, and transport of witness validity through f. The correspondence is "
+              "metamorphic on the implementation only: each case runs every function on a base input and on relabelled / reshuffled / "
+              "regrouped twins (m<=30, n<=60; ILPs m<=6) and demands equal verdicts/optima, mapped winner sets and tables, and "
+              "witnesses valid on their own variant via the verified checkers.",
+              "k_alt_partition_approx is neither an exact decider nor an optimiser and is not compared. NOT PROVED (listed in "
+              "Properties/C15.v): the list of parts returned by is_part under ballot reordering (its verdict is), eucl_decide as a boolean "
+              "identity under relabelling (spec level only), invariance of the DP mirror's optimum.", "C15"),
 })
 
 _PENDING = "not claimed yet: the model and check for this property are still being built (see DESIGN.md §12)"
